@@ -86,6 +86,20 @@ class VOpt(V):
     def __repr__(self): return f'<opt {self.isnone} {self.inner}>'
 
 
+class VAny(V):
+    """one of several alternatives, each under a guard (mutually exclusive, exhaustive); resolved by path split at first use"""
+    k = 'any'
+    def __init__(self, alts): self.alts = list(alts)
+    def __repr__(self): return f'<any {[type(v).__name__ for _, v in self.alts]}>'
+
+
+class VSpec(V):
+    """a Python float that is not finite: 'nan', 'inf' or '-inf' (DESIGN section 3, tagged floats)"""
+    k = 'fspecial'
+    def __init__(self, kind): self.kind = kind
+    def __repr__(self): return f'<float {self.kind}>'
+
+
 class VRef(V):
     """pointer to a mutable heap cell: list / dict / instance"""
     k = 'ref'
@@ -149,7 +163,7 @@ def fresh_of(shape, name='h'):
 
 def shape_of(v):
     if isinstance(v, VInt): return 'int'
-    if isinstance(v, VReal): return 'real'
+    if isinstance(v, (VReal, VSpec)): return 'real'      # a havocked float: any real over-approximates +-inf for order tests
     if isinstance(v, VBool): return 'bool'
     if isinstance(v, VNone): return 'none'
     if isinstance(v, VStr): return 'str'
@@ -183,3 +197,13 @@ def num(v):
 
 
 def is_num(v): return isinstance(v, (VInt, VReal, VBool))
+
+
+def any_element(name='el', int_bound=10 ** 6, S=None):
+    """an element of the C14 input domain: int of moderate magnitude, bool, finite float, nan, +-inf, str, None"""
+    t = fresh(I, name + '_tag')
+    n = fresh(I, name + '_int'); r = fresh(R, name + '_flt')
+    if S is not None: S.fact(f'{name}-moderate-int', z3.And(n >= -int_bound, n <= int_bound))      # "ints of moderate magnitude"
+    alts = [(t == 0, VInt(n)), (t == 1, VBool(fresh(B, name + '_bool'))), (t == 2, VReal(r)), (t == 3, VSpec('nan')),
+            (t == 4, VSpec('inf')), (t == 5, VSpec('-inf')), (t == 6, VStr(code=fresh(I, name + '_str'))), (z3.Or(t < 0, t > 6), NONE)]
+    return VAny(alts)
